@@ -129,15 +129,27 @@ impl Selection {
     }
 
     // return true if we wrote all selected attributes!
-    fn write_all(&mut self, cursor: &mut WriteCursor, map: &SetMap) -> bool {
+    //
+    // `empty_fragment` is true if nothing has been written to this response fragment yet: an
+    // object that does not fit even then can never be sent, so it is skipped instead of being
+    // retried in an endless series of empty fragments
+    fn write_all(&mut self, cursor: &mut WriteCursor, map: &SetMap, empty_fragment: bool) -> bool {
+        let start = cursor.position();
         while let Some(item) = self.selected.front_mut() {
             let (set, var) = item.current();
+            let nothing_written = empty_fragment && cursor.position() == start;
 
             // is it a variation list?
             if var == crate::app::attr::var::LIST_OF_ATTRIBUTE_VARIATIONS {
                 if let Some(vars) = map.variations(set) {
                     if Self::write_attr_list(set, cursor, vars).is_err() {
-                        return false;
+                        if !nothing_written {
+                            return false;
+                        }
+                        tracing::warn!(
+                            "attribute variation list of set {} does not fit in a response fragment",
+                            set.value()
+                        );
                     }
                 }
             } else {
@@ -146,7 +158,17 @@ impl Selection {
                     let mut writer = HeaderWriter::new(cursor);
                     if let Err(err) = writer.write_attribute(attr) {
                         match err {
-                            AttrWriteError::Cursor => return false, // out of space
+                            AttrWriteError::Cursor => {
+                                // out of space
+                                if !nothing_written {
+                                    return false;
+                                }
+                                tracing::warn!(
+                                    "attribute (set = {}, var = {}) does not fit in a response fragment",
+                                    set.value(),
+                                    var
+                                );
+                            }
                             AttrWriteError::BadAttribute(err) => {
                                 tracing::error!("Unable to write attribute: {}", err);
                             }
@@ -187,8 +209,8 @@ impl AttrHandler {
         &mut self.map
     }
 
-    pub(crate) fn write(&mut self, cursor: &mut WriteCursor) -> bool {
-        self.selection.write_all(cursor, &self.map)
+    pub(crate) fn write(&mut self, cursor: &mut WriteCursor, empty_fragment: bool) -> bool {
+        self.selection.write_all(cursor, &self.map, empty_fragment)
     }
 
     pub(crate) fn reset(&mut self) {
